@@ -3,6 +3,8 @@
 pub mod ieee { use vstd::prelude::*; use vstd::std_specs::ops::*; use vstd::std_specs::cmp::*; use core::cmp::Ordering; use super::fdefs::*;
 /// finite x: |x - x| <= 1e-12   (x - x is exactly 0.0)                          kani: finite_self_diff
 pub broadcast axiom fn finite_self_diff(x: f64) ensures finite(x) ==> f_le(s_abs(#[trigger] x.sub_spec(x)), 1e-12f64);
+/// finite x: x == x   (IEEE equality is reflexive except for NaN)                          kani: finite_eq_refl
+pub broadcast axiom fn finite_eq_refl(x: f64) ensures finite(x) ==> #[trigger] x.eq_spec(&x);
 /// 1.0 == 1.0 and 0.0 == 0.0 (IEEE comparison of the two literals with themselves)        kani: eq_refl_literals
 #[verifier::allow(broadcast_without_trigger)]
 pub broadcast axiom fn eq_refl_literals() ensures (1.0f64).eq_spec(&1.0f64), (0.0f64).eq_spec(&0.0f64), !(1.0f64).eq_spec(&0.0f64), !(0.0f64).eq_spec(&1.0f64);
@@ -27,5 +29,5 @@ pub broadcast axiom fn neg_le_self(a: f64) ensures f_ge(a, 0.0f64) ==> f_le(#[tr
 /// the integer 5 as f64 is not below 1.0                                                    kani: one_le_five
 #[verifier::allow(broadcast_without_trigger)]
 pub broadcast axiom fn one_le_five() ensures f_le(1.0f64, s_of_usize(5));
-pub broadcast group ieee_axioms { finite_self_diff, eq_refl_literals, gt_irrefl, ngt_trans, nan_add, nan_mul, nan_div, nan_sqrt, nan_not_le, inf_not_le_one, clamp_cast_le5, abs_ge_zero, neg_le_self, one_le_five }
+pub broadcast group ieee_axioms { finite_self_diff, finite_eq_refl, eq_refl_literals, gt_irrefl, ngt_trans, nan_add, nan_mul, nan_div, nan_sqrt, nan_not_le, inf_not_le_one, clamp_cast_le5, abs_ge_zero, neg_le_self, one_le_five }
 }
